@@ -339,9 +339,14 @@ func GroupByIWithContext[T any, K comparable](iteratee func(ctx context.Context,
 			groups := sync.Map{}
 			i := int64(0)
 
+			// notifyAll sends a terminal notification to the open groups and forgets them.
+			// The map is emptied entry by entry: overwriting it (groups = sync.Map{}) would
+			// race with a producer that is inside Load/Store on another goroutine.
 			notifyAll := func(cb func(Observer[T])) {
 				groups.Range(func(key, value any) bool {
+					groups.Delete(key)
 					cb(value.(Observer[T])) //nolint:errcheck,forcetypeassert
+
 					return true
 				})
 			}
@@ -367,16 +372,10 @@ func GroupByIWithContext[T any, K comparable](iteratee func(ctx context.Context,
 						// The groups first: the terminal notification of the destination runs the
 						// teardown below, which completes the groups that are still open.
 						notifyAll(func(o Observer[T]) { o.ErrorWithContext(ctx, err) })
-
-						groups = sync.Map{}
-
 						destination.ErrorWithContext(ctx, err)
 					},
 					func(ctx context.Context) {
 						notifyAll(func(o Observer[T]) { o.CompleteWithContext(ctx) })
-
-						groups = sync.Map{}
-
 						destination.CompleteWithContext(ctx)
 					},
 				),
@@ -386,8 +385,6 @@ func GroupByIWithContext[T any, K comparable](iteratee func(ctx context.Context,
 				// deferred: the groups must be completed even if an upstream teardown panics
 				defer func() {
 					notifyAll(func(o Observer[T]) { o.CompleteWithContext(subscriberCtx) })
-
-					groups = sync.Map{}
 				}()
 
 				sub.Unsubscribe()
